@@ -111,6 +111,17 @@ def apply_model(sym, n, f, vals, mut_idx, st):
     if p in IDENTITY or (p.endswith(("::as_ref", "::as_deref", "::as_str")) and len(vals) == 1 and not mut_idx):
         return V(vals[0])
     if p in ("std::convert::Into::into", "std::convert::From::from") and len(vals) == 1:
+        a0 = (n.get("args") or [{}])[0]
+        if (F.strip(a0).get("ty") == "bool" or a0.get("ty") == "bool") and (n.get("ty") or "") in ("usize", "u8", "u16", "u32", "u64", "i32", "i64", "isize"):
+            # `usize::from(cond)`: 1 or 0
+            if vals[0] in (TRUE, FALSE):
+                return V(lit_int(1 if vals[0] == TRUE else 0))
+            out = []
+            for pol in (True, False):
+                s1 = st.with_cond(vals[0] if vals[0][0] != "bool" else vals[0], pol)
+                if s1 is not None:
+                    out.append((s1, (VAL, lit_int(1 if pol else 0))))
+            return out
         return V(vals[0])
 
     if p == "core::str::as_bytes" and len(vals) == 1 and vals[0][0] == "payload" and vals[0][2] == "Ok" and vals[0][1][0] == "call" \
